@@ -5,6 +5,7 @@ pub mod c13;
 pub mod c14;
 pub mod c15;
 pub mod c16;
+pub mod c17;
 pub mod c18;
 pub mod common;
 
@@ -15,6 +16,7 @@ pub fn by_id(id: &str) -> Option<Box<dyn Property>> {
         "C14" => Box::new(c14::C14),
         "C15" => Box::new(c15::C15),
         "C16" => Box::new(c16::C16),
+        "C17" => Box::new(c17::C17),
         "C18" => Box::new(c18::C18),
         _ => return None,
     })
